@@ -231,8 +231,16 @@ class _WLog(list):
         self.snaps = []
 
     events = None
+    forward = None  # the log of the watcher this one replaced (the harness keeps reading that one)
+    stale = False  # the watcher of this log has been replaced: whatever still reaches it is marked
 
     def append(self, x):
+        x = "STALE-WATCHER:" + x if self.stale else x
+        if self.forward is not None:
+            return self.forward.record(x)
+        self.record(x)
+
+    def record(self, x):
         super().append(x)
         if self.events is not None:
             self.events.append("w:" + x)
@@ -468,7 +476,7 @@ def lean_lines(op):
         return ["op\tload\t" + ("-" if op[1] is None else str(op[1]))]
     if n in ("autosave", "autobuild", "autonotify"):
         return [f"op\t{n}\t{'T' if op[1] else 'F'}"]
-    if n == "setwatcher":
+    if n in ("setwatcher", "swapwatcher"):
         return []  # set_watcher changes no flag and no policy: no model step
     if n == "setstore":
         return ["\t".join(["setstore", enc_rules(op[1].get("p", [])), enc_rules(op[1].get("g", [])), enc_rules(op[1].get("g2", []))])]
@@ -602,6 +610,13 @@ def impl_call(e, op, is_async):
             e.adapter.fail_after = None
     if n == "setwatcher":
         return e.set_watcher(e.watcher)  # re-attach the (same) watcher: must not change any flag
+    if n == "swapwatcher":
+        # replace the watcher by ANOTHER object of the same kind: from now on that one is notified, the old one never
+        old = e.watcher
+        new = make_watcher(op[1], op[2], op[3])
+        new.log.forward = old.log.forward if old.log.forward is not None else old.log
+        old.log.stale = True
+        return e.set_watcher(new)
     if n == "setstore":
         e.adapter.store = {k: [list(r) for r in v] for k, v in op[1].items()}
         return None
